@@ -494,6 +494,8 @@ HOSTILE = [
     ("tabs", lambda n: chr(9) * n + "a"),
     ("newlines", lambda n: "a" + chr(10) * n + "== 1"),
     ("float", lambda n: "1e" + "9" * (1 + n % 5) + " > a"),
+    ("alldigits", lambda n: "9" * (n * 5)),  # the whole text is one integer literal (up to 25000 digits: beyond the interpreter's int-conversion limit)
+    ("unidigits", lambda n: [chr(0xB2), "1" + chr(0xB3), chr(0x2460), chr(0x663), chr(0xFF11) + chr(0xFF12), "0" + chr(0x660)][n % 6]),  # text made of Unicode digit characters only
 ]
 DEPTHS = [1, 40, 150, 240, 400, 950, 1600, 5000]
 BASES = [0, 300, 700]
@@ -599,7 +601,7 @@ META = {
                   "src/stabilize/handlers/complete_stage/split_logic.py:_apply_split_logic", "src/stabilize/handlers/start_stage/conditions.py:_should_skip"],
     "bounds": ["graphs: 3 stages (refs unique or duplicated, requisites any subset of the refs, one unknown ref) exhaustively; 4 stages with 4 representative requisite sets for the first stage (thorough)",
                "expressions: every supported node class with leaf children over 12 leaf kinds (int/str/None/bool constants, names bound to int, str, list, dict, tuple, float, unbound) - depth 2 exhaustively; 14 unsupported constructs; depth 3 for 6 root shapes over 11 inner shapes (thorough)",
-               "text: what ast.unparse of those trees produces, plus 17 classes of hostile text (nesting of each recursive construct repeated 1..5000 times, lone surrogate, NUL, huge literals/names, whitespace) evaluated at call-stack depths 0/300/700"],
+               "text: what ast.unparse of those trees produces, plus 19 classes of hostile text (nesting of each recursive construct repeated 1..5000 times, lone surrogate, NUL, huge literals/names, whitespace) evaluated at call-stack depths 0/300/700"],
     "stubs": ["ids: ULID() replaced by a counter"],
     "assumptions": ["text -> AST (ast.parse, C code) is outside: it is exercised concretely on the unparsed text of every explored tree"],
 }
